@@ -1,9 +1,11 @@
 package main
 
 import (
+	"encoding/json"
 	"flag"
 	"fmt"
 	"os"
+	"path/filepath"
 
 	"verif/engine/asmbmc"
 	"verif/engine/gosym"
@@ -38,7 +40,53 @@ func main() {
 		fmt.Sscanf(os.Getenv("VERIF_SEED"), "%d", &seed)
 		os.Exit(asmbmc.Run(asmbmc.Opts{Tier: *tier, VerifDir: *verifDir, Seed: seed}))
 	}
+	if prop == "C09" && *only == "" {
+		// C09 = lock discipline of the allocator (gosym monitor) + the lock really being exclusive (the C08 model,
+		// regenerated from the current spinlock sources): the reduction argument needs both premises.
+		rc := gosym.RunProperty(gosym.RunOpts{Property: prop, Tier: *tier, Only: *only, VerifDir: *verifDir, Workers: *workers, Verbose: *verbose, NoReplay: *noReplay})
+		lrc := asmbmc.Run(asmbmc.Opts{Tier: "quick", VerifDir: *verifDir, As: "C09"})
+		mergeLockEvidence(*verifDir, "C09")
+		switch {
+		case rc == 1 || lrc == 1:
+			os.Exit(1)
+		case rc != 0:
+			os.Exit(rc)
+		}
+		os.Exit(lrc)
+	}
 	os.Exit(gosym.RunProperty(gosym.RunOpts{Property: prop, Tier: *tier, Only: *only, VerifDir: *verifDir, Workers: *workers, Verbose: *verbose, NoReplay: *noReplay}))
+}
+
+// mergeLockEvidence folds the lock-model run into the property's evidence file.
+func mergeLockEvidence(verifDir, prop string) {
+	evPath := filepath.Join(verifDir, "evidence", prop+".json")
+	var ev, lock map[string]interface{}
+	b, err := os.ReadFile(evPath)
+	if err != nil || json.Unmarshal(b, &ev) != nil {
+		return
+	}
+	lb, err := os.ReadFile(filepath.Join(verifDir, "out", prop, "lock", "evidence.json"))
+	if err != nil || json.Unmarshal(lb, &lock) != nil {
+		return
+	}
+	cov, _ := ev["coverage"].(map[string]interface{})
+	lcov, _ := lock["coverage"].(map[string]interface{})
+	if cov == nil || lcov == nil {
+		return
+	}
+	cov["lock_premise"] = map[string]interface{}{"what": "the C08 transition-system queries, regenerated from kernel/sync in this run: the allocator's mutex admits one holder", "queries": lcov["queries"], "bounds": lcov["bounds"], "functions_encoded": lcov["functions_encoded"], "solver_time_s": lcov["solver_time_s"], "violations": lock["violations"], "inconclusive": lock["inconclusive"]}
+	if v, ok := lock["violations"].(float64); ok {
+		if w, ok := ev["violations"].(float64); ok {
+			ev["violations"] = int(v + w)
+		}
+	}
+	if v, ok := lock["wall_s"].(float64); ok {
+		if w, ok := ev["wall_s"].(float64); ok {
+			ev["wall_s"] = v + w
+		}
+	}
+	out, _ := json.MarshalIndent(ev, "", " ")
+	os.WriteFile(evPath, out, 0o644)
 }
 
 func flagSet(fs *flag.FlagSet, name string) bool {
